@@ -37,13 +37,13 @@ type c11Op struct {
 }
 
 type c11Spec struct {
-	BadStore  bool    `json:"bad_store,omitempty"` // an EventStore whose SessionClosed reports an error
+	BadStore bool `json:"bad_store,omitempty"` // an EventStore whose SessionClosed reports an error
 	// AppendFailAt > 0 (with BadStore): the k-th Append of the store fails once (a remote store with a hiccup); the
 	// message is still delivered and nothing about the session table changes
-	AppendFailAt int `json:"append_fail_at,omitempty"`
-	Stateless bool    `json:"stateless"`
-	TimeoutMs int     `json:"timeout_ms"`
-	Ops       []c11Op `json:"ops"`
+	AppendFailAt int     `json:"append_fail_at,omitempty"`
+	Stateless    bool    `json:"stateless"`
+	TimeoutMs    int     `json:"timeout_ms"`
+	Ops          []c11Op `json:"ops"`
 }
 
 func genC11(r *vh.Rand) c11Spec {
